@@ -41,9 +41,6 @@ TRUSTED_EXTRA = ["tools/dump_sites.py (executes the factories, classifies constr
 F = fractions.Fraction
 SQ3 = math.sqrt(3)
 PHASES = (30.0, -90.0, 150.0)
-CALTECH_CC = ["CA-322", "CA-493", "CA-496", "CA-320", "CA-495", "CA-321", "CA-323", "CA-494"]
-CALTECH_AV = ["CA-324", "CA-325", "CA-326", "CA-327", "CA-489", "CA-490", "CA-491", "CA-492"]
-
 _nets = {}
 
 
@@ -67,22 +64,8 @@ def get_net(site, basic, idx):
 
 
 def truth(site, ids, kw):
-    """ground truth from the site documentation: transformers [(capacity kW, station indices)],
-    pods [(rating A, indices)], panels [(rating A, indices)]"""
-    if site == "caltech":
-        return ([(kw["transformer_cap"], list(range(len(ids))))],
-                [(80, [i for i, s in enumerate(ids) if s in CALTECH_CC]),
-                 (80, [i for i, s in enumerate(ids) if s in CALTECH_AV])], [])
-    if site == "office001":
-        return [(kw["transformer_cap"], list(range(len(ids))))], [], []
-    f1 = [i for i, s in enumerate(ids) if s.startswith("AG-1F")]
-    f34 = [i for i, s in enumerate(ids) if s.startswith("AG-3F") or s.startswith("AG-4F")]
-    sp1 = [i for i, s in enumerate(ids) if s in ("AG-1F11", "AG-1F12", "AG-1F13", "AG-1F14")]
-    sp2 = [i for i, s in enumerate(ids) if s in ("AG-1F01", "AG-1F02", "AG-1F03", "AG-1F04", "AG-1F05", "AG-1F06")]
-    f3 = [i for i, s in enumerate(ids) if s.startswith("AG-3F")]
-    f4 = [i for i, s in enumerate(ids) if s.startswith("AG-4F")]
-    return ([(kw["first_transformer_cap"], f1), (kw["third_fourth_transformer_cap"], f34)], [],
-            [(100, sp1), (100, sp2), (225, f3), (225, f4)])
+    """ground truth from the site documentation (kept in tools/dump_sites.py)"""
+    return dump_sites.truth(site, ids, kw)
 
 
 def run_impl(net, X, T):
